@@ -34,6 +34,7 @@ def _containment_primitive(ctx: Ctx) -> None:
     RP.rule_containment_every_row(ctx)
     RP.rule_lp_zero_columns(ctx, P + "verify_polytope_containment", ["a_l", "a_r"], ["b_l", "b_r"], any_of=True)
     RP.rule_lp_zero_columns(ctx, P + "is_polytope_empty", ["a"], ["b"])
+    RP.rule_lp_emptiness_shortcuts(ctx)
 
 
 def _simplify_primitive(ctx: Ctx) -> None:
@@ -99,6 +100,8 @@ def c06(ctx: Ctx) -> None:
     RS.rule_copy(ctx)
     RA.rule_tl_operators(ctx)
     RA.rule_contract_factories(ctx)
+    # a refusal whose message cannot be built (sorting objects without an order) is not a refusal
+    RE.rule_unorderable_sort(ctx)
 
 
 def c15(ctx: Ctx) -> None:
@@ -168,6 +171,9 @@ def c11(ctx: Ctx) -> None:
     RP.rule_lp_bounds(ctx)
     RP.rule_polytope_roundtrip(ctx)
     RP.rule_lp_zero_columns(ctx, P + "is_polytope_empty", ["a"], ["b"])
+    RP.rule_lp_emptiness_shortcuts(ctx)
+    # "a behaviour contained in a list is contained in everything that list refines": the refinement test itself
+    _containment_primitive(ctx)
 
 
 def c12(ctx: Ctx) -> None:
@@ -190,6 +196,7 @@ def c09(ctx: Ctx) -> None:
     RPA.rule_parse_entry(ctx)
     RPA.rule_infix_chain(ctx)
     RPA.rule_number_token(ctx)
+    RPA.rule_parser_memoisation(ctx)
     RF.rule_no_global_mutation(ctx)
 
 
@@ -232,7 +239,10 @@ def c14(ctx: Ctx) -> None:
     P = RP.PTL
     RP.rule_lp_zero_columns(ctx, P + "verify_polytope_containment", ["a_l", "a_r"], ["b_l", "b_r"], any_of=True)
     RP.rule_lp_zero_columns(ctx, P + "is_polytope_empty", ["a"], ["b"])
+    RP.rule_lp_emptiness_shortcuts(ctx)
     RP.rule_lp_zero_columns(ctx, P + "reduce_polytope", ["a", "a_help"], ["b"])
+    RE.rule_unorderable_sort(ctx)
+    RE.rule_array_inplace_cast(ctx)
 
 
 def c19(ctx: Ctx) -> None:
@@ -271,6 +281,7 @@ def c03(ctx: Ctx) -> None:
     RP.rule_containment_every_row(ctx)
     RP.rule_lp_zero_columns(ctx, P + "verify_polytope_containment", ["a_l", "a_r"], ["b_l", "b_r"], any_of=True)
     RP.rule_lp_zero_columns(ctx, P + "is_polytope_empty", ["a"], ["b"])
+    RP.rule_lp_emptiness_shortcuts(ctx)
     RP.rule_matrix_provenance(ctx, P + "verify_polytope_containment")
     RP.rule_matrix_provenance(ctx, P + "is_polytope_empty")
     RP.rule_lp_bounds(ctx)
